@@ -71,4 +71,9 @@ CHECKS = {
   text='For n_steps 1..16 x 14 alphas x M 1..5: W*Winv = I (both orders), E_alpha as specified, W E_alpha Winv diagonal with the analytic eigenvalues, every get_G_inv_matrix factor inverts (d_l H + I), and (W(x)I)(E(x)H+I)(Winv(x)I) = blockdiag(G_l). '
        'One update_nodes() of QDiagonalization/IMEX solves (G(x)I - dt Q(x)A) y = r for G_inv = identity / a ParaDiag factor given at construction or via set_G_inv, with and without ignore_ic. Converged controller_ParaDiag_nonMPI runs equal sequential collocation within kappa*restol; implicit linear runs must converge.',
   note='alpha = 1: the l=0 factor is singular by mathematics and must be reported (exception or non-finite). Complex-valued dense fixtures and the shipped Dahlquist problem are used (the diagonalisation has complex eigenvalues, so real FD problems are outside what the sweeper can solve). IMEX runs that do not converge in 60 iterations are discarded and counted.'),
+ 'C14': dict(
+  technique='property-based testing: synthetic statistics dictionaries against dictionary-comprehension/sorting references; generated restart histories with all shipped logging hooks against ground truth from an observer controller, a recorder hook and call-counting fixture problems',
+  text='filter_stats/sort_stats/get_sorted/get_list_of_types on random Entry dictionaries (None fields, near-equal times, duplicates across num_restarts). Runs (1-4 steps/block, 1-2 levels, scripted restarts anywhere, repeated restarts, dt changes) with LogSolution, LogWork, LogRestarts, LogStepSize, LogSDCIterations: '
+       'recomputed=False must leave exactly one record per accepted step and type at the true start/end time; niter == iteration callbacks; work counters == calls counted; logged dt/residual/solution equal the accepted attempt; first-slot restart counts; real-stats filters == comprehensions.',
+  note='Known finding F6 is delimited by a reference filter on ideal records (every attempt keyed with its true restart count): only times where even ideal records cannot be filtered are attributed to it. LogSDCIterations accumulates over attempts sharing a key (increment semantics) and is only checked for presence. F5 (LogWork) fixed.'),
 }
